@@ -76,11 +76,19 @@ def handle (toks : List String) : String :=
     match parseFloatList? data with
     | some data =>
       match adTest sortAD (-1e-300 : Float) (data.map optNaN) with
-      | .ok s => "ok " ++ hexOfFloat s
+      | .ok s => "ok " ++ hexOfFloat s ++ " " ++ hexOfFloat (adPvalue data.length s)
       | .error .range => "err range"
       | .error .nan => "err nan"
       | .error .unsorted => "err unsorted"
     | none => "bad-op"
+  | ["cvmp", stat, qq, cdf] =>
+    match floatTok? stat, parseFloatList? qq, parseFloatList? cdf with
+    | some stat, some qq, some cdf => fmtO (interp stat qq cdf)
+    | _, _, _ => "bad-op"
+  | ["cvmidx", n, sizes] =>
+    match n.toNat?, parseNatList? sizes with
+    | some n, some sizes => match closestIdx n sizes with | some i => s!"some {i}" | none => "none"
+    | _, _ => "bad-op"
   | _ => "bad-op"
 
 def main : IO Unit := serve handle
